@@ -465,16 +465,31 @@ def _stress(chk, scenario, nthreads, nwrites, seed):
                 for i in range(nwrites):
                     k = rr.random()
                     tok = "<%d:%d>" % (t, i)
-                    txt = tok + "\n" if k < 0.5 else (tok if k < 0.8 else tok + "\n" + "~")
+                    if scenario == "partial":
+                        # partial-line pieces from most threads, whole lines from the last one,
+                        # while a further thread flushes all the time
+                        txt = tok + "\n" if t == nthreads - 1 else tok
+                    else:
+                        txt = tok + "\n" if k < 0.5 else (tok if k < 0.8 else tok + "\n" + "~")
                     per[t].append(txt)
                     rig.proxy.write(txt)
-                    if k > 0.97:
-                        rig.proxy.flush()
-                    if i % 64 == 0:
-                        time.sleep(0.0005)
+                    if scenario != "partial":
+                        if k > 0.97:
+                            rig.proxy.flush()
+                        if i % 64 == 0:
+                            time.sleep(0.0005)
+            except BaseException as e:  # noqa
+                errors.append(repr(e))
+        def flusher():
+            try:
+                while not stop_evt.is_set():
+                    rig.proxy.flush()
             except BaseException as e:  # noqa
                 errors.append(repr(e))
         ths = [threading.Thread(target=writer, args=(t,), daemon=True) for t in range(nthreads)]
+        fl = threading.Thread(target=flusher, daemon=True) if scenario == "partial" else None
+        if fl:
+            fl.start()
         for t in ths:
             t.start()
         if scenario == "lifecycle":
@@ -490,6 +505,9 @@ def _stress(chk, scenario, nthreads, nwrites, seed):
             t.join(60)
             if t.is_alive():
                 errors.append("writer thread stuck")
+        stop_evt.set()
+        if fl:
+            fl.join(10)
         problems = rig.finish(complete=True)
     except BaseException as e:  # noqa
         rig.teardown()
@@ -533,8 +551,45 @@ def _stress(chk, scenario, nthreads, nwrites, seed):
         bad.append(("flush-thread-died", repr(rig.crashed[:2])))
     for e in errors:
         bad.append(("harness", e))
+    if rig.unlocked:
+        bad.append(("unlocked-buffer-access",
+                    "_buffer touched by a thread that does not hold _lock (a step the model does not have): %r" % (rig.unlocked[:3],)))
     return bad, {"scenario": scenario, "threads": nthreads, "writes": nwrites, "seed": seed,
                  "leaked": rig.leaked_threads(), "flags": sorted(rig.flags), "chars": sum(len(t) for p in per for t in p)}
+
+
+def render_fault_probe():
+    """A redraw of the prompt that raises once right after a patched print (a
+    widget callback failing) must not stop later prints: in_terminal resolves
+    the chain future in an inner `finally` (the model's start_sec marks the
+    section done unconditionally).  Oracle only."""
+    rig = c20_rig.Rig(True, False, 1, sleep=0.0)
+    rig.run_app_kwargs = {"set_exception_handler": False}
+    bad = []
+    seen = lambda t: any(e[0] == "w" and t in e[1] for e in rig.events)  # noqa
+    try:
+        rig.do([8])
+        rig.writers[0].do(("w", "first\n"))
+        rig._poll(lambda: seen("first\n"), "'first' not emitted")
+        rig.settle()
+        rig.fail_next_render = True
+        rig.writers[0].do(("w", "second\n"))
+        rig._poll(lambda: seen("second\n") and rig.render_failures == 1, "'second' not emitted / fault not taken")
+        rig.settle()
+        rig.writers[0].do(("w", "third\n"))
+        try:
+            rig._poll(lambda: seen("third\n"), "", timeout=3.0)
+        except c20_rig.RigTimeout:
+            bad.append(("lost", "print 'first', make the redraw after the next print raise once, print 'second', print 'third': "
+                                "'third' never reaches the terminal (terminal text %r)" % (rig.out_text(),)))
+    except BaseException as e:  # noqa
+        bad.append(("harness", "render-fault probe: %r" % (e,)))
+    problems = rig.finish(complete=True)
+    for p in problems:
+        bad.append(("lost", "render-fault probe, finishing: " + p))
+    if not bad and rig.out_text() != "first\nsecond\nthird\n":
+        bad.append(("reorder", "render-fault probe: terminal text %r" % (rig.out_text(),)))
+    return bad, {"scenario": "render-fault", "leaked": rig.leaked_threads()}
 
 
 # --------------------------------------------------------------------------
@@ -619,10 +674,14 @@ def main(tier):
     st_runs = []
     nth, nwr = (4, 3000) if chk.tier == "thorough" else (4, 1000)
     reps = 10 if chk.tier == "thorough" else 3
-    for scenario in ("noapp", "running", "lifecycle"):
-        for r in range(reps):
+    for scenario in ("noapp", "running", "lifecycle", "partial", "render-fault"):
+        for r in range(reps if scenario != "render-fault" else 1):
             try:
-                bad, meta = with_watchdog(lambda: stress(chk, scenario, nth, nwr, chk.seed * 17 + r), 150)
+                if scenario == "render-fault":
+                    bad, meta = with_watchdog(render_fault_probe, 60)
+                else:
+                    bad, meta = with_watchdog(lambda: stress(chk, scenario, nth, nwr if scenario != "partial" else 4 * nwr,
+                                                             chk.seed * 17 + r), 150)
             except Hang:
                 bad, meta = [("hang", "stress run hung")], {"scenario": scenario}
             st_runs.append(meta)
@@ -633,9 +692,10 @@ def main(tier):
                 if fam in seen:
                     continue
                 seen.add(fam)
-                chk.violation("oracle", "free-running %s stress (%d threads x %d writes): %s" % (scenario, nth, nwr, msg),
+                chk.violation("tie" if fam == "unlocked-buffer-access" else "oracle",
+                              "free-running %s run (%d threads x %d writes): %s" % (scenario, nth, nwr, msg),
                               {"family": fam, "cause": "stress-" + scenario},
-                              {"stress": meta, "clause": msg})
+                              {"stress": meta, "clause": msg}, no_input=(fam == "unlocked-buffer-access"))
 
     if leaked:
         chk.violation("tie", "%d harness/implementation thread(s) still alive after a case" % leaked,
@@ -680,6 +740,10 @@ def replay(data):
     if "stress" in rep:
         m = rep["stress"]
         chk = types_ns()
+        if m["scenario"] == "render-fault":
+            bad, meta = render_fault_probe()
+            print("render-fault probe ->", bad or "oracle ok")
+            return 1 if bad else 0
         bad, meta = stress(chk, m["scenario"], m.get("threads", 4), m.get("writes", 300), m.get("seed", 0))
         print("stress", meta, "->", bad or "oracle ok")
         return 1 if bad else 0
